@@ -148,12 +148,16 @@ fn g_adversarial(max_len: usize) -> BoxedStrategy<(Vec<u8>, &'static str)> {
 fn g_case(max_len: usize) -> BoxedStrategy<EncCase> {
     (g_adversarial(max_len), g_modes(), g_list())
         .prop_map(|((data, stratum), modes, list)| {
+            // the probe encode of a fitted list runs the planner too: same budget as in the check, so that a
+            // search that explodes cannot hang the generator
+            datamatrix::verif::set_step_budget(Some(4 * (216 * (data.len() + 1) + 6)));
             let list = match list {
                 ListSpec::Default => default_mask(),
                 ListSpec::All => ALL_MASK,
                 ListSpec::Mask(m) => m,
                 ListSpec::Fit(k) => resolve_fit(&data, modes, false, false, k),
             };
+            datamatrix::verif::set_step_budget(None);
             EncCase { data, list, modes, macros: false, fnc1: false, eci: None, stratum }
         })
         .boxed()
